@@ -39,7 +39,7 @@ const simBase = "zz_verif/sim/"
 var (
 	timeFuncs = map[string]bool{"Now": true, "Since": true, "Until": true, "Sleep": true,
 		"NewTimer": true, "After": true, "AfterFunc": true, "NewTicker": true, "Tick": true, "Timer": true, "Ticker": true}
-	osNames   = map[string]bool{
+	osNames = map[string]bool{
 		"ReadFile": true, "WriteFile": true, "Stat": true, "Lstat": true, "Open": true, "OpenFile": true,
 		"Create": true, "CreateTemp": true, "Rename": true, "Remove": true, "RemoveAll": true, "Mkdir": true,
 		"MkdirAll": true, "MkdirTemp": true, "ReadDir": true, "Chmod": true, "Truncate": true, "Link": true,
@@ -293,6 +293,12 @@ func (r *rewriter) run() {
 			case "time":
 				if timeFuncs[x.Sel.Name] {
 					timeSel = append(timeSel, x)
+				}
+			case "runtime":
+				if x.Sel.Name == "Gosched" {
+					x.X.(*ast.Ident).Name = "simrt"
+					r.need["simrt"] = true
+					r.changed = true
 				}
 			case "context":
 				if n := x.Sel.Name; n == "WithTimeout" || n == "WithDeadline" || n == "WithTimeoutCause" || n == "WithDeadlineCause" {
@@ -857,7 +863,7 @@ func (r *rewriter) write(filename string) error {
 	// imports whose every use was redirected become blank imports
 	for _, is := range r.file.Imports {
 		p, _ := strconv.Unquote(is.Path.Value)
-		if p != "time" && p != "os" && p != "sync/atomic" && p != "sync" && p != "math/rand" && p != "math/rand/v2" && p != "path/filepath" && p != "io/ioutil" {
+		if p != "time" && p != "os" && p != "sync/atomic" && p != "sync" && p != "math/rand" && p != "math/rand/v2" && p != "path/filepath" && p != "io/ioutil" && p != "runtime" {
 			continue
 		}
 		if is.Name != nil && (is.Name.Name == "_" || is.Name.Name == ".") {
